@@ -474,6 +474,13 @@ func (r *Resolver) resolve(ctx context.Context, rs *resolveState) (*dns.Msg, err
 		} else {
 			r.clearResolutionZoneFailure(rs.req.Question[0], rs.servers.Zone)
 		}
+		if resp.Rcode == dns.RcodeNameError && !rs.req.CheckingDisabled {
+			// A bare NXDOMAIN is a denial with no proof. The error rcodes
+			// that share this branch say nothing about the name; this one
+			// does, so under a signed zone it must validate or fail like
+			// any other negative answer.
+			return r.authority(ctx, rs.req, resp, rs.parentDS, rs.servers.Zone)
+		}
 		return resp, nil
 	}
 
@@ -515,6 +522,14 @@ func (r *Resolver) resolve(ctx context.Context, rs *resolveState) (*dns.Msg, err
 	m.SetRcode(rs.req, dns.RcodeSuccess)
 	m.RecursionAvailable = true
 	m.Extra = rs.req.Extra
+
+	if !rs.req.CheckingDisabled {
+		// An empty NOERROR is a NODATA claim with no proof at all. Under a
+		// signed zone it has to fail validation like any other negative
+		// answer that arrives without signatures; authority() makes that
+		// call (signed zone, proven insecure delegation, anchor outage).
+		return r.authority(ctx, rs.req, m, rs.parentDS, rs.servers.Zone)
+	}
 
 	return m, nil
 }
